@@ -260,6 +260,87 @@ Definition dec_link (p : bstr) : option ipld :=
 
 Definition ret {A} (v : A) (r : bstr) (g : N) : dres (A * bstr * N) := DOk (v, r, g).
 
+(* one data item whose initial byte is b; rec decodes nested items with one unit of fuel less *)
+Definition dec_byte (lim : limits) (rec : option N -> N -> bstr -> dres (ipld * bstr * N))
+           (tag : option N) (g : N) (b : N) (r : bstr) : dres (ipld * bstr * N) :=
+  if (b =? 246) || (b =? 247) then ret INull r g
+  else if b =? 244 then charge g 1 (ret (IBool false) r)
+  else if b =? 245 then charge g 1 (ret (IBool true) r)
+  else if (b =? 249) || (b =? 250) || (b =? 251) then DUnsup
+  else if b =? 159 then        (* 0x9f *)
+    match dec_items_indef (rec None) (length r) g r with
+    | DOk (l, r', g') => ret (IList l) r' g'
+    | DErr => DErr | DUnsup => DUnsup
+    end
+  else if b =? 191 then        (* 0xbf *)
+    match dec_entries_indef lim (rec None) (length r) [] g r with
+    | DOk (m, r', g') => ret (IMap m) r' g'
+    | DErr => DErr | DUnsup => DUnsup
+    end
+  else
+    let mj := b / 32 in
+    let ai := b mod 32 in
+    if mj =? 0 then
+      match dec_arg ai r with
+      | Some (n, r') => charge g 1 (ret (IInt (Z.of_N n)) r')
+      | None => DErr
+      end
+    else if mj =? 1 then
+      match dec_arg ai r with
+      | Some (n, r') =>
+        let pos := (n + 1) mod 2 ^ 64 in
+        if 2 ^ 63 <? pos then DErr else charge g 1 (ret (IInt (- Z.of_N pos)) r')
+      | None => DErr
+      end
+    else if mj =? 2 then
+      match dec_str lim 2 b r with
+      | Some (p, r') =>
+        charge g (len p) (fun g' =>
+          match tag with
+          | None => ret (IBytes p) r' g'
+          | Some t =>
+            if t =? 42 then
+              match dec_link p with Some v => ret v r' g' | None => DErr end
+            else DErr
+          end)
+      | None => DErr
+      end
+    else if mj =? 3 then
+      match dec_str lim 3 b r with
+      | Some (p, r') => charge g (len p) (ret (IString p) r')
+      | None => DErr
+      end
+    else if mj =? 4 then
+      match dec_len lim ai r with
+      | Some (n, r') =>
+        if (g <? n) || (len r' <? n) then DErr
+        else match dec_items (rec None) (N.to_nat n) g r' with
+             | DOk (l, r'', g') => ret (IList l) r'' g'
+             | DErr => DErr | DUnsup => DUnsup
+             end
+      | None => DErr
+      end
+    else if mj =? 5 then
+      match dec_len lim ai r with
+      | Some (n, r') =>
+        if (g <? n) || (len r' <? n) then DErr
+        else match dec_entries lim (rec None) (N.to_nat n) [] g r' with
+             | DOk (m, r'', g') => ret (IMap m) r'' g'
+             | DErr => DErr | DUnsup => DUnsup
+             end
+      | None => DErr
+      end
+    else if mj =? 6 then
+      match tag with
+      | Some _ => DErr          (* "unsupported multiple tags on a single data item" *)
+      | None =>
+        match dec_len lim ai r with
+        | Some (t, r') => rec (Some t) g r'
+        | None => DErr
+        end
+      end
+    else DErr.
+
 Fixpoint dec_item (lim : limits) (fuel : nat) (tag : option N) (g : N) (bs : bstr)
   : dres (ipld * bstr * N) :=
   match fuel with
@@ -267,84 +348,7 @@ Fixpoint dec_item (lim : limits) (fuel : nat) (tag : option N) (g : N) (bs : bst
   | S f =>
     match bs with
     | [] => DErr
-    | b :: r =>
-      if (b =? 246) || (b =? 247) then ret INull r g
-      else if b =? 244 then charge g 1 (ret (IBool false) r)
-      else if b =? 245 then charge g 1 (ret (IBool true) r)
-      else if (b =? 249) || (b =? 250) || (b =? 251) then DUnsup
-      else if b =? 159 then        (* 0x9f *)
-        match dec_items_indef (dec_item lim f None) (length r) g r with
-        | DOk (l, r', g') => ret (IList l) r' g'
-        | DErr => DErr | DUnsup => DUnsup
-        end
-      else if b =? 191 then        (* 0xbf *)
-        match dec_entries_indef lim (dec_item lim f None) (length r) [] g r with
-        | DOk (m, r', g') => ret (IMap m) r' g'
-        | DErr => DErr | DUnsup => DUnsup
-        end
-      else
-        let mj := b / 32 in
-        let ai := b mod 32 in
-        if mj =? 0 then
-          match dec_arg ai r with
-          | Some (n, r') => charge g 1 (ret (IInt (Z.of_N n)) r')
-          | None => DErr
-          end
-        else if mj =? 1 then
-          match dec_arg ai r with
-          | Some (n, r') =>
-            let pos := (n + 1) mod 2 ^ 64 in
-            if 2 ^ 63 <? pos then DErr else charge g 1 (ret (IInt (- Z.of_N pos)) r')
-          | None => DErr
-          end
-        else if mj =? 2 then
-          match dec_str lim 2 b r with
-          | Some (p, r') =>
-            charge g (len p) (fun g' =>
-              match tag with
-              | None => ret (IBytes p) r' g'
-              | Some t =>
-                if t =? 42 then
-                  match dec_link p with Some v => ret v r' g' | None => DErr end
-                else DErr
-              end)
-          | None => DErr
-          end
-        else if mj =? 3 then
-          match dec_str lim 3 b r with
-          | Some (p, r') => charge g (len p) (ret (IString p) r')
-          | None => DErr
-          end
-        else if mj =? 4 then
-          match dec_len lim ai r with
-          | Some (n, r') =>
-            if (g <? n) || (len r' <? n) then DErr
-            else match dec_items (dec_item lim f None) (N.to_nat n) g r' with
-                 | DOk (l, r'', g') => ret (IList l) r'' g'
-                 | DErr => DErr | DUnsup => DUnsup
-                 end
-          | None => DErr
-          end
-        else if mj =? 5 then
-          match dec_len lim ai r with
-          | Some (n, r') =>
-            if (g <? n) || (len r' <? n) then DErr
-            else match dec_entries lim (dec_item lim f None) (N.to_nat n) [] g r' with
-                 | DOk (m, r'', g') => ret (IMap m) r'' g'
-                 | DErr => DErr | DUnsup => DUnsup
-                 end
-          | None => DErr
-          end
-        else if mj =? 6 then
-          match tag with
-          | Some _ => DErr          (* "unsupported multiple tags on a single data item" *)
-          | None =>
-            match dec_len lim ai r with
-            | Some (t, r') => dec_item lim f (Some t) g r'
-            | None => DErr
-            end
-          end
-        else DErr
+    | b :: r => dec_byte lim (dec_item lim f) tag g b r
     end
   end.
 
@@ -361,3 +365,483 @@ Definition cbor_decode (b : bstr) : option (ipld * bstr) :=
 
 Definition cbor_decode_all (b : bstr) : option ipld :=
   match cbor_decode b with Some (v, []) => Some v | _ => None end.
+
+(* ================================================================== *)
+(* proofs                                                              *)
+
+Lemma len_app {A} (a b : list A) : len (a ++ b) = len a + len b.
+Proof. unfold len. rewrite app_length. lia. Qed.
+
+Lemma be_bytes_length k n : length (be_bytes k n) = k.
+Proof.
+  revert n. induction k as [|k IH]; intros n; cbn [be_bytes]; [reflexivity|].
+  rewrite app_length, IH. cbn. lia.
+Qed.
+
+Lemma be_value_snoc l b : be_value (l ++ [b]) = be_value l * 256 + b.
+Proof. unfold be_value. rewrite fold_left_app. reflexivity. Qed.
+
+Lemma be_value_be_bytes k n : n < 256 ^ N.of_nat k -> be_value (be_bytes k n) = n.
+Proof.
+  revert n. induction k as [|k IH]; intros n H; cbn [be_bytes].
+  - change (256 ^ N.of_nat 0) with 1 in H. unfold be_value. cbn. lia.
+  - rewrite be_value_snoc, IH.
+    + pose proof (N.div_mod n 256). lia.
+    + rewrite Nat2N.inj_succ, N.pow_succ_r' in H. apply N.div_lt_upper_bound; lia.
+Qed.
+
+Lemma take_app p r n : len p = n -> take n (p ++ r) = Some (p, r).
+Proof.
+  intros <-. unfold take. rewrite len_app.
+  replace (len p + len r <? len p) with false by lia.
+  unfold len. rewrite Nat2N.id, firstn_app, firstn_all, Nat.sub_diag, skipn_app, skipn_all, Nat.sub_diag.
+  cbn [firstn skipn app]. rewrite app_nil_r. reflexivity.
+Qed.
+
+Lemma div32 m ai : ai < 32 -> (m * 32 + ai) / 32 = m.
+Proof. intros H. rewrite N.div_add_l by lia. rewrite N.div_small by exact H. lia. Qed.
+
+Lemma mod32 m ai : ai < 32 -> (m * 32 + ai) mod 32 = ai.
+Proof. intros H. rewrite N.add_comm, N.mod_add by lia. apply N.mod_small. exact H. Qed.
+
+(* the head of an argument below 2^64, and how the decoder reads it back *)
+Lemma head_spec m n : n < 2 ^ 64 ->
+  exists ai p, head m n = (m * 32 + ai) :: p /\ ai < 28 /\
+               forall r, dec_arg ai (p ++ r) = Some (n, r).
+Proof.
+  intros H. unfold head.
+  destruct (n <? 24) eqn:E1.
+  { exists n, []. split; [reflexivity|]. split; [lia|]. intros r. unfold dec_arg. rewrite E1. reflexivity. }
+  destruct (n <? 256) eqn:E2.
+  { exists 24, [n]. split; [reflexivity|]. split; [lia|]. intros r. unfold dec_arg.
+    change (24 <? 24) with false. change (24 =? 24) with true. cbv iota.
+    change ([n] ++ r) with ([n] ++ r). rewrite (take_app [n] r 1) by reflexivity.
+    unfold be_value. cbn [fold_left]. replace (0 * 256 + n) with n by lia. reflexivity. }
+  destruct (n <? 65536) eqn:E3.
+  { exists 25, (be_bytes 2 n). split; [reflexivity|]. split; [lia|]. intros r. unfold dec_arg.
+    change (25 <? 24) with false. change (25 =? 24) with false. change (25 =? 25) with true. cbv iota.
+    rewrite take_app by (unfold len; rewrite be_bytes_length; reflexivity).
+    rewrite be_value_be_bytes; [reflexivity|]. change (256 ^ N.of_nat 2) with 65536. lia. }
+  destruct (n <? 4294967296) eqn:E4.
+  { exists 26, (be_bytes 4 n). split; [reflexivity|]. split; [lia|]. intros r. unfold dec_arg.
+    change (26 <? 24) with false. change (26 =? 24) with false. change (26 =? 25) with false.
+    change (26 =? 26) with true. cbv iota.
+    rewrite take_app by (unfold len; rewrite be_bytes_length; reflexivity).
+    rewrite be_value_be_bytes; [reflexivity|]. change (256 ^ N.of_nat 4) with 4294967296. lia. }
+  exists 27, (be_bytes 8 n). split; [reflexivity|]. split; [lia|]. intros r. unfold dec_arg.
+  change (27 <? 24) with false. change (27 =? 24) with false. change (27 =? 25) with false.
+  change (27 =? 26) with false. change (27 =? 27) with true. cbv iota.
+  rewrite take_app by (unfold len; rewrite be_bytes_length; reflexivity).
+  rewrite be_value_be_bytes; [reflexivity|]. change (256 ^ N.of_nat 8) with (2 ^ 64). exact H.
+Qed.
+
+Lemma head_length_pos m n : (1 <= length (head m n))%nat.
+Proof. unfold head. repeat match goal with |- context [if ?c then _ else _] => destruct c end; cbn [length]; lia. Qed.
+
+(* ------------------------------------------------------------------ *)
+(* dec_byte on an initial byte m*32+ai with ai < 28: only the branch of
+   major type m remains *)
+
+Ltac kill_byte_tests :=
+  repeat match goal with
+         | |- context [(?a * 32 + ?b) =? ?c] => replace (a * 32 + b =? c) with false by lia
+         end;
+  cbn [orb].
+
+Lemma dec_byte_major lim rec tag g m ai r : m < 7 -> ai < 28 ->
+  dec_byte lim rec tag g (m * 32 + ai) r =
+    if m =? 0 then
+      match dec_arg ai r with
+      | Some (n, r') => charge g 1 (ret (IInt (Z.of_N n)) r')
+      | None => DErr
+      end
+    else if m =? 1 then
+      match dec_arg ai r with
+      | Some (n, r') =>
+        let pos := (n + 1) mod 2 ^ 64 in
+        if 2 ^ 63 <? pos then DErr else charge g 1 (ret (IInt (- Z.of_N pos)) r')
+      | None => DErr
+      end
+    else if m =? 2 then
+      match dec_payload lim ai r with
+      | Some (p, r') =>
+        charge g (len p) (fun g' =>
+          match tag with
+          | None => ret (IBytes p) r' g'
+          | Some t =>
+            if t =? 42 then
+              match dec_link p with Some v => ret v r' g' | None => DErr end
+            else DErr
+          end)
+      | None => DErr
+      end
+    else if m =? 3 then
+      match dec_payload lim ai r with
+      | Some (p, r') => charge g (len p) (ret (IString p) r')
+      | None => DErr
+      end
+    else if m =? 4 then
+      match dec_len lim ai r with
+      | Some (n, r') =>
+        if (g <? n) || (len r' <? n) then DErr
+        else match dec_items (rec None) (N.to_nat n) g r' with
+             | DOk (l, r'', g') => ret (IList l) r'' g'
+             | DErr => DErr | DUnsup => DUnsup
+             end
+      | None => DErr
+      end
+    else if m =? 5 then
+      match dec_len lim ai r with
+      | Some (n, r') =>
+        if (g <? n) || (len r' <? n) then DErr
+        else match dec_entries lim (rec None) (N.to_nat n) [] g r' with
+             | DOk (mm, r'', g') => ret (IMap mm) r'' g'
+             | DErr => DErr | DUnsup => DUnsup
+             end
+      | None => DErr
+      end
+    else
+      match tag with
+      | Some _ => DErr
+      | None =>
+        match dec_len lim ai r with
+        | Some (t, r') => rec (Some t) g r'
+        | None => DErr
+        end
+      end.
+Proof.
+  intros Hm Hai. unfold dec_byte, dec_str.
+  replace (m * 32 + ai =? 246) with false by lia.
+  replace (m * 32 + ai =? 247) with false by lia.
+  replace (m * 32 + ai =? 244) with false by lia.
+  replace (m * 32 + ai =? 245) with false by lia.
+  replace (m * 32 + ai =? 249) with false by lia.
+  replace (m * 32 + ai =? 250) with false by lia.
+  replace (m * 32 + ai =? 251) with false by lia.
+  replace (m * 32 + ai =? 159) with false by lia.
+  replace (m * 32 + ai =? 191) with false by lia.
+  cbn [orb]. cbv zeta.
+  rewrite div32, mod32 by lia.
+  replace (ai =? 31) with false by lia.
+  replace (m =? 6) with (negb ((m =? 0) || (m =? 1) || (m =? 2) || (m =? 3) || (m =? 4) || (m =? 5))) by lia.
+  destruct (m =? 0); [reflexivity|]. destruct (m =? 1); [reflexivity|]. destruct (m =? 2); [reflexivity|].
+  destruct (m =? 3); [reflexivity|]. destruct (m =? 4); [reflexivity|]. destruct (m =? 5); reflexivity.
+Qed.
+
+(* reading back a definite-length payload *)
+Lemma dec_len_head lim m n : n < 2 ^ 64 -> n <= max_len lim ->
+  exists ai p, head m n = (m * 32 + ai) :: p /\ ai < 28 /\
+               forall r, dec_len lim ai (p ++ r) = Some (n, r).
+Proof.
+  intros H L. destruct (head_spec m n H) as (ai & p & E & Hai & D).
+  exists ai, p. split; [exact E|]. split; [exact Hai|]. intros r. unfold dec_len. rewrite D.
+  replace (max_len lim <? n) with false by lia. reflexivity.
+Qed.
+
+Lemma dec_payload_head lim m s : len s < 2 ^ 64 -> len s <= max_len lim -> len s <= max_str lim ->
+  exists ai p, head m (len s) = (m * 32 + ai) :: p /\ ai < 28 /\
+               forall r, dec_payload lim ai (p ++ s ++ r) = Some (s, r).
+Proof.
+  intros H L S. destruct (dec_len_head lim m (len s) H L) as (ai & p & E & Hai & D).
+  exists ai, p. split; [exact E|]. split; [exact Hai|]. intros r. unfold dec_payload. rewrite D.
+  replace (max_str lim <? len s) with false by lia. apply take_app. reflexivity.
+Qed.
+
+Lemma dec_key_enc lim k r : len k < 2 ^ 64 -> len k <= max_len lim -> len k <= max_str lim ->
+  dec_key lim (head 3 (len k) ++ k ++ r) = Some (k, r).
+Proof.
+  intros H L S. destruct (dec_payload_head lim 3 k H L S) as (ai & p & E & Hai & D).
+  rewrite E. cbn [app]. unfold dec_key. rewrite div32 by lia.
+  change (3 =? 6) with false. cbv iota. unfold dec_key_untagged. rewrite div32 by lia.
+  change (3 =? 3) with true. cbv iota. unfold dec_str. rewrite mod32 by lia.
+  replace (ai =? 31) with false by lia. apply D.
+Qed.
+
+(* ------------------------------------------------------------------ *)
+(* allocation budget consumed by decoding the encoding of v, and the
+   largest length occurring in v *)
+
+Definition gas_list (cost : ipld -> N) (l : list ipld) : N :=
+  fold_right (fun x acc => 4 + cost x + acc) 0 l.
+Definition gas_entries (cost : ipld -> N) (m : list (bstr * ipld)) : N :=
+  fold_right (fun kv acc => len (fst kv) + 8 + cost (snd kv) + acc) 0 m.
+
+Fixpoint gas_cost (v : ipld) : N :=
+  match v with
+  | INull => 0
+  | IBool _ | IInt _ => 1
+  | IString s => len s
+  | IBytes b => len b
+  | ILink c => len c + 1
+  | IList l => fold_right (fun x acc => 4 + gas_cost x + acc) 0 l
+  | IMap m => fold_right (fun kv acc => len (fst kv) + 8 + gas_cost (snd kv) + acc) 0 m
+  end.
+
+Fixpoint max_size (v : ipld) : N :=
+  match v with
+  | IString s => len s
+  | IBytes b => len b
+  | ILink c => len c + 1
+  | IList l => fold_right (fun x acc => N.max (max_size x) acc) (len l) l
+  | IMap m => fold_right (fun kv acc => N.max (N.max (len (fst kv)) (max_size (snd kv))) acc) (len m) m
+  | _ => 0
+  end.
+
+Definition fits (lim : limits) (v : ipld) : Prop :=
+  max_size v <= max_len lim /\ max_size v <= max_str lim.
+
+Lemma gas_cost_list l : gas_cost (IList l) = gas_list gas_cost l.
+Proof. reflexivity. Qed.
+Lemma gas_cost_map m : gas_cost (IMap m) = gas_entries gas_cost m.
+Proof. reflexivity. Qed.
+
+Lemma gas_entries_perm cost m m' : Permutation m m' -> gas_entries cost m = gas_entries cost m'.
+Proof.
+  unfold gas_entries.
+  induction 1 as [| x l l' _ IH | x y l | l l' l'' _ IH1 _ IH2]; cbn [fold_right].
+  - reflexivity.
+  - rewrite IH. reflexivity.
+  - generalize (fold_right (fun kv acc => len (fst kv) + 8 + cost (snd kv) + acc) 0 l). intros n. lia.
+  - congruence.
+Qed.
+
+Lemma fold_max_ge {A} (f : A -> N) l n :
+  n <= fold_right (fun x acc => N.max (f x) acc) n l /\
+  forall x, In x l -> f x <= fold_right (fun x acc => N.max (f x) acc) n l.
+Proof.
+  induction l as [|y l [IH1 IH2]]; cbn [fold_right].
+  - split; [lia | intros x []].
+  - split; [lia|]. intros x [->|I]; [lia|]. specialize (IH2 x I). lia.
+Qed.
+
+Lemma max_size_list_in l x : In x l -> max_size x <= max_size (IList l).
+Proof. intros I. exact (proj2 (fold_max_ge max_size l (len l)) x I). Qed.
+
+Lemma max_size_list_len l : len l <= max_size (IList l).
+Proof. exact (proj1 (fold_max_ge max_size l (len l))). Qed.
+
+Lemma max_size_map_in m kv : In kv m ->
+  len (fst kv) <= max_size (IMap m) /\ max_size (snd kv) <= max_size (IMap m).
+Proof.
+  intros I.
+  pose proof (proj2 (fold_max_ge (fun kv => N.max (len (fst kv)) (max_size (snd kv))) m (len m)) kv I) as H.
+  cbv beta in H. change (fold_right _ (len m) m) with (max_size (IMap m)) in H. lia.
+Qed.
+
+Lemma max_size_map_len m : len m <= max_size (IMap m).
+Proof. exact (proj1 (fold_max_ge (fun kv => N.max (len (fst kv)) (max_size (snd kv))) m (len m))). Qed.
+
+Lemma len_le_gas_list cost l : len l <= gas_list cost l.
+Proof. unfold gas_list, len. induction l as [|x l IH]; cbn [fold_right length]; lia. Qed.
+
+Lemma len_le_gas_entries cost m : len m <= gas_entries cost m.
+Proof. unfold gas_entries, len. induction m as [|x m IH]; cbn [fold_right length]; lia. Qed.
+
+(* ------------------------------------------------------------------ *)
+(* the loops read back a sequence of encoded items / entries           *)
+
+Definition item_ok (item : N -> bstr -> dres (ipld * bstr * N)) (x : ipld) : Prop :=
+  forall g r, gas_cost x <= g -> item g (cbor_encode x ++ r) = DOk (canon x, r, g - gas_cost x).
+
+Lemma dec_items_enc item l : Forall (item_ok item) l ->
+  forall g r, gas_list gas_cost l <= g ->
+  dec_items item (length l) g (concat (map cbor_encode l) ++ r)
+  = DOk (map canon l, r, g - gas_list gas_cost l).
+Proof.
+  induction 1 as [|x l Hx _ IH]; intros g r G; cbn [length dec_items map concat gas_list fold_right] in *.
+  - rewrite N.sub_0_r. reflexivity.
+  - unfold charge. replace (g <? 4) with false by lia.
+    rewrite <- app_assoc. rewrite Hx by lia.
+    rewrite IH by (unfold gas_list; lia).
+    f_equal. f_equal. unfold gas_list. lia.
+Qed.
+
+Definition key_ok (lim : limits) (k : bstr) : Prop :=
+  len k < 2 ^ 64 /\ len k <= max_len lim /\ len k <= max_str lim.
+
+Lemma dec_entries_enc lim item es :
+  Forall (fun kv => key_ok lim (fst kv) /\ item_ok item (snd kv)) es ->
+  NoDup (map fst es) ->
+  forall seen g r, (forall k, In k (map fst es) -> ~ In k seen) ->
+  gas_entries gas_cost es <= g ->
+  dec_entries lim item (length es) seen g
+              (concat (map enc_entry (map (on_snd cbor_encode) es)) ++ r)
+  = DOk (map (on_snd canon) es, r, g - gas_entries gas_cost es).
+Proof.
+  induction 1 as [|[k x] es [(K1 & K2 & K3) Hx] _ IH]; intros ND seen g r Hseen G;
+    cbn [length dec_entries map concat gas_entries fold_right fst snd] in *.
+  - rewrite N.sub_0_r. reflexivity.
+  - inversion ND as [|? ? NI ND']; subst.
+    change (on_snd cbor_encode (k, x)) with (k, cbor_encode x).
+    change (on_snd canon (k, x)) with (k, canon x).
+    unfold dec_entry, enc_entry at 1. cbn [fst snd].
+    rewrite <- !app_assoc. rewrite dec_key_enc by assumption.
+    unfold charge. replace (g <? len k + 8) with false by lia.
+    replace (existsb (beq k) seen) with false.
+    2:{ symmetry. destruct (existsb (beq k) seen) eqn:E; [|reflexivity].
+        apply existsb_beq_In in E. exfalso. apply (Hseen k); [left; reflexivity | exact E]. }
+    rewrite Hx by lia.
+    rewrite IH.
+    + f_equal. f_equal. unfold gas_entries. lia.
+    + exact ND'.
+    + intros k' I [E|I'].
+      * subst. contradiction.
+      * apply (Hseen k'); [right; exact I | exact I'].
+    + unfold gas_entries. lia.
+Qed.
+
+(* ------------------------------------------------------------------ *)
+(* lengths                                                             *)
+
+Lemma cbor_encode_length_pos v : (1 <= length (cbor_encode v))%nat.
+Proof.
+  destruct v as [| [] | z | s | b | l | m | c]; cbn [cbor_encode app length]; try lia.
+  - destruct (0 <=? z)%Z; apply head_length_pos.
+  - rewrite app_length; pose proof (head_length_pos 3 (len s)); lia.
+  - rewrite app_length; pose proof (head_length_pos 2 (len b)); lia.
+  - rewrite app_length; pose proof (head_length_pos 4 (len l)); lia.
+  - rewrite app_length; pose proof (head_length_pos 5 (len m)); lia.
+Qed.
+
+Lemma in_concat_length {A} (f : A -> bstr) l x :
+  In x l -> (length (f x) <= length (concat (map f l)))%nat.
+Proof.
+  induction l as [|y l IH]; intros I; [contradiction|]. cbn [map concat]. rewrite app_length.
+  destruct I as [->|I]; [lia|]. specialize (IH I). lia.
+Qed.
+
+Lemma concat_length_ge {A} (f : A -> bstr) l :
+  (forall x, In x l -> (1 <= length (f x))%nat) -> (length l <= length (concat (map f l)))%nat.
+Proof.
+  induction l as [|y l IH]; intros H; [cbn; lia|]. cbn [map concat length]. rewrite app_length.
+  pose proof (H y (or_introl eq_refl)). assert (length l <= length (concat (map f l)))%nat.
+  { apply IH. intros x I. apply H. right. exact I. }
+  lia.
+Qed.
+
+Lemma bytes_ok_len s : bytes_ok s = true -> len s < 2 ^ 64.
+Proof. unfold bytes_ok. rewrite andb_true_iff. intros [_ H]. unfold len. lia. Qed.
+
+Ltac major_tests :=
+  repeat match goal with
+         | |- context [N.eqb ?a ?b] =>
+           let c := eval compute in (N.eqb a b) in
+           match c with
+           | true => change (N.eqb a b) with true
+           | false => change (N.eqb a b) with false
+           end
+         end; cbv iota.
+
+(* ------------------------------------------------------------------ *)
+(* the round trip, for any limits and any sufficient budget and fuel    *)
+
+Definition lim_ok (lim : limits) : Prop := 42 <= max_len lim.
+
+Lemma dec_enc lim : lim_ok lim -> forall v, wf_ipld v = true -> fits lim v ->
+  forall fuel g r, (length (cbor_encode v) <= fuel)%nat -> gas_cost v <= g ->
+  dec_item lim fuel None g (cbor_encode v ++ r) = DOk (canon v, r, g - gas_cost v).
+Proof.
+  intros LO v.
+  induction v as [| b | z | s | s | l IH | m IH | c] using ipld_ind'; intros WF [F1 F2] fuel g r FU G.
+  - (* null *)
+    destruct fuel as [|f]; [cbn in FU; lia|]. cbn [cbor_encode app dec_item gas_cost canon].
+    unfold dec_byte. major_tests. cbn [orb]. unfold ret. rewrite N.sub_0_r. reflexivity.
+  - (* bool *)
+    destruct fuel as [|f]; [destruct b; cbn in FU; lia|]. cbn [gas_cost] in *.
+    destruct b; cbn [cbor_encode app dec_item canon]; unfold dec_byte; major_tests; cbn [orb];
+      unfold charge, ret; replace (g <? 1) with false by lia; reflexivity.
+  - (* int *)
+    cbn [wf_ipld] in WF. cbn [gas_cost canon] in *. cbn [cbor_encode] in *.
+    destruct (0 <=? z)%Z eqn:S.
+    + destruct (head_spec 0 (Z.to_N z)) as (ai & p & E & Hai & D); [lia|].
+      rewrite E in *. destruct fuel as [|f]; [cbn in FU; lia|].
+      cbn [app dec_item]. rewrite dec_byte_major by lia. major_tests. rewrite D.
+      unfold charge, ret. replace (g <? 1) with false by lia. f_equal. f_equal. f_equal. f_equal. lia.
+    + destruct (head_spec 1 (Z.to_N (-1 - z))) as (ai & p & E & Hai & D); [lia|].
+      rewrite E in *. destruct fuel as [|f]; [cbn in FU; lia|].
+      cbn [app dec_item]. rewrite dec_byte_major by lia. major_tests. rewrite D. cbv zeta.
+      rewrite N.mod_small by lia.
+      replace (2 ^ 63 <? Z.to_N (-1 - z) + 1) with false by lia.
+      unfold charge, ret. replace (g <? 1) with false by lia. f_equal. f_equal. f_equal. f_equal. lia.
+  - (* string *)
+    cbn [wf_ipld max_size gas_cost canon cbor_encode] in *. apply bytes_ok_len in WF.
+    destruct (dec_payload_head lim 3 s WF F1 F2) as (ai & p & E & Hai & D).
+    rewrite E in *. destruct fuel as [|f]; [cbn in FU; lia|].
+    cbn [app dec_item]. rewrite <- app_assoc. rewrite dec_byte_major by lia. major_tests. rewrite D.
+    unfold charge, ret. replace (g <? len s) with false by lia. reflexivity.
+  - (* bytes *)
+    cbn [wf_ipld max_size gas_cost canon cbor_encode] in *. apply bytes_ok_len in WF.
+    destruct (dec_payload_head lim 2 s WF F1 F2) as (ai & p & E & Hai & D).
+    rewrite E in *. destruct fuel as [|f]; [cbn in FU; lia|].
+    cbn [app dec_item]. rewrite <- app_assoc. rewrite dec_byte_major by lia. major_tests. rewrite D.
+    unfold charge, ret. replace (g <? len s) with false by lia. reflexivity.
+  - (* list *)
+    cbn [wf_ipld] in WF. apply andb_true_iff in WF. destruct WF as [WL WF].
+    assert (HL : len l < 2 ^ 64) by (unfold len; lia).
+    pose proof (max_size_list_len l) as ML.
+    destruct (dec_len_head lim 4 (len l) HL) as (ai & p & E & Hai & D); [lia|].
+    cbn [cbor_encode] in *. rewrite E in *. destruct fuel as [|f]; [cbn in FU; lia|].
+    cbn [app dec_item]. rewrite <- app_assoc. rewrite dec_byte_major by lia. major_tests. rewrite D.
+    rewrite gas_cost_list in *. pose proof (len_le_gas_list gas_cost l) as LG.
+    replace (g <? len l) with false by lia.
+    assert (CL : (length l <= length (concat (map cbor_encode l)))%nat).
+    { apply concat_length_ge. intros x _. apply cbor_encode_length_pos. }
+    replace (len (concat (map cbor_encode l) ++ r) <? len l) with false
+      by (unfold len; rewrite app_length; lia).
+    cbn [orb]. unfold len at 1. rewrite Nat2N.id.
+    rewrite dec_items_enc; [reflexivity | | exact G].
+    rewrite Forall_forall in *. intros x Hx g' r' G'.
+    rewrite forallb_forall in WF.
+    apply IH; auto.
+    + pose proof (max_size_list_in l x Hx). split; lia.
+    + pose proof (in_concat_length cbor_encode l x Hx). rewrite app_length in FU. cbn [length] in FU. lia.
+  - (* map *)
+    pose proof (wf_map_nodup m WF) as ND.
+    cbn [wf_ipld] in WF. rewrite !andb_true_iff in WF. destruct WF as [[WL WF] _].
+    assert (HL : len m < 2 ^ 64) by (unfold len; lia).
+    pose proof (max_size_map_len m) as ML.
+    destruct (dec_len_head lim 5 (len m) HL) as (ai & p & E & Hai & D); [lia|].
+    rewrite cbor_encode_map_eq in *. rewrite E in *. destruct fuel as [|f]; [cbn in FU; lia|].
+    cbn [app dec_item]. rewrite <- app_assoc. rewrite dec_byte_major by lia. major_tests. rewrite D.
+    rewrite gas_cost_map in *. pose proof (len_le_gas_entries gas_cost m) as LG.
+    replace (g <? len m) with false by lia.
+    pose proof (sort_map_perm m) as PM.
+    assert (CL : (length m <= length (concat (map enc_entry (map (on_snd cbor_encode) (sort_map m)))))%nat).
+    { rewrite <- (sort_map_length m), <- (map_length (on_snd cbor_encode) (sort_map m)).
+      apply concat_length_ge. intros x _. unfold enc_entry. rewrite app_length.
+      pose proof (head_length_pos 3 (len (fst x))). lia. }
+    replace (len (concat (map enc_entry (map (on_snd cbor_encode) (sort_map m))) ++ r) <? len m) with false
+      by (unfold len; rewrite app_length; lia).
+    cbn [orb]. unfold len at 1. rewrite Nat2N.id. rewrite <- (sort_map_length m).
+    rewrite (gas_entries_perm gas_cost m (sort_map m)) in * by (symmetry; exact PM).
+    rewrite dec_entries_enc.
+    + unfold ret. rewrite canon_map_eq, sort_map_map. reflexivity.
+    + rewrite Forall_forall in *. intros kv Hkv.
+      assert (Hm : In kv m) by (eapply Permutation_in; [exact PM | exact Hkv]).
+      rewrite forallb_forall in WF. specialize (WF kv Hm). apply andb_true_iff in WF. destruct WF as [WK WV].
+      pose proof (max_size_map_in m kv Hm) as [MK MV].
+      split.
+      * unfold key_ok. apply bytes_ok_len in WK.
+        repeat split; [exact WK | eapply N.le_trans; eassumption | eapply N.le_trans; eassumption].
+      * intros g' r' G'. apply IH; auto.
+        -- split; (eapply N.le_trans; [exact MV | assumption]).
+        -- pose proof (in_concat_length (fun kv => enc_entry (on_snd cbor_encode kv)) (sort_map m) kv Hkv) as IL.
+           rewrite <- map_map in IL. unfold enc_entry at 1 in IL. unfold on_snd at 1 2 3 in IL. cbn [fst snd] in IL.
+           rewrite !app_length in IL. rewrite app_length in FU. cbn [length] in FU. lia.
+    + eapply Permutation_NoDup; [apply Permutation_map; symmetry; exact PM | exact ND].
+    + intros k _ [].
+    + exact G.
+  - (* link *)
+    cbn [wf_ipld max_size gas_cost canon cbor_encode] in *. apply andb_true_iff in WF. destruct WF as [WB WC].
+    apply bytes_ok_len in WB. rename WB into HB.
+    replace (len c + 1) with (len (0 :: c)) in * by (unfold len; cbn [length]; lia).
+    destruct (dec_payload_head lim 2 (0 :: c) HB F1 F2) as (ai & p & E & Hai & D).
+    change [216; 42] with (head 6 42) in *.
+    destruct (dec_len_head lim 6 42) as (ai6 & p6 & E6 & Hai6 & D6); [lia | exact LO |].
+    rewrite E6, E in *.
+    destruct fuel as [|[|f]]; [cbn in FU; lia | cbn [app length] in FU; rewrite app_length in FU; cbn [length] in FU; lia |].
+    cbn [app dec_item]. rewrite <- !app_assoc. rewrite dec_byte_major by lia. major_tests. rewrite D6.
+    cbn [app dec_item]. rewrite dec_byte_major by lia. major_tests.
+    rewrite <- app_assoc. rewrite D. unfold charge, ret. replace (g <? len (0 :: c)) with false by lia.
+    unfold dec_link. rewrite WC. reflexivity.
+Qed.
